@@ -15,11 +15,16 @@ package codec
 //   and the buffer decodes to m; MarshalToVT likewise;
 //   UnmarshalVT(b1) == m, proto.Unmarshal(b2) == m          (cross decoding)
 //   proto.Unmarshal(b1) == m, UnmarshalVT(b2) == m          (own round trips)
+// every decode works on a private copy of the bytes which is overwritten afterwards (XOR
+// 0xFF, then zero); the decoded message must still equal m and re-encode byte-identically
+// (input buffer independence);
 // where == is proto.Equal (unset != empty sub-message; nil == empty list/map; unknown
 // fields compared). Byte equality between the codecs is not required (map order).
 // Decoding of arbitrary bytes is not compared.
 
 import (
+	"bytes"
+	"crypto/subtle"
 	"encoding/hex"
 	"fmt"
 	"math"
@@ -189,11 +194,11 @@ func c12Scalar(fd protoreflect.FieldDescriptor, v C12Val) (protoreflect.Value, e
 	case protoreflect.BoolKind:
 		return protoreflect.ValueOfBool(v.B), nil
 	case protoreflect.StringKind:
-		s := c12Str(v)
-		if !utf8.ValidString(s) {
+		// a repetition of a valid string is valid: only the unit needs checking
+		if !utf8.ValidString(v.S) {
 			return protoreflect.Value{}, fmt.Errorf("field %s: string is not valid UTF-8 (outside the domain)", fd.FullName())
 		}
-		return protoreflect.ValueOfString(s), nil
+		return protoreflect.ValueOfString(c12Str(v)), nil
 	case protoreflect.BytesKind:
 		return protoreflect.ValueOfBytes(c12Bytes(v)), nil
 	case protoreflect.EnumKind:
@@ -375,6 +380,7 @@ type c12Stats struct {
 	scalarZero   int // scalar field listed with its zero value (absent on the wire)
 	emptyKey     int
 	multiByteStr int
+	longBy       map[string]bool
 }
 
 func c12IsZero(fd protoreflect.FieldDescriptor, v C12Val) bool {
@@ -382,9 +388,9 @@ func c12IsZero(fd protoreflect.FieldDescriptor, v C12Val) bool {
 	case protoreflect.BoolKind:
 		return !v.B
 	case protoreflect.StringKind:
-		return c12Str(v) == ""
+		return v.S == ""
 	case protoreflect.BytesKind:
-		return len(c12Bytes(v)) == 0
+		return len(v.X) == 0
 	case protoreflect.Uint32Kind, protoreflect.Fixed32Kind:
 		return uint32(v.U) == 0
 	case protoreflect.Uint64Kind, protoreflect.Fixed64Kind, protoreflect.DoubleKind:
@@ -397,18 +403,44 @@ func c12IsZero(fd protoreflect.FieldDescriptor, v C12Val) bool {
 	return v.I == 0
 }
 
-func c12ScalarStats(fd protoreflect.FieldDescriptor, v C12Val, st *c12Stats) {
+func (st *c12Stats) long(n int, ctx string) {
+	if n < 1024 {
+		return
+	}
+	if st.longBy == nil {
+		st.longBy = map[string]bool{}
+	}
+	st.longBy["len>=1024:"+ctx] = true
+	if n >= 4096 {
+		st.longBy["len>=4096:"+ctx] = true
+	}
+	if n >= 65535 {
+		st.longBy["len>=65535:"+ctx] = true
+	}
+}
+
+// ctx: "scalar", "repeated", "mapkey", "mapvalue"
+func c12ScalarStats(fd protoreflect.FieldDescriptor, v C12Val, st *c12Stats, ctx string) {
 	switch fd.Kind() {
 	case protoreflect.StringKind:
-		s := c12Str(v)
-		if len(s) >= 128 {
+		n := len(v.S) // lengths without materialising the repetition
+		if v.R > 1 {
+			n *= v.R
+		}
+		st.long(n, ctx)
+		if n >= 128 {
 			st.longStr++
 		}
-		if len(s) != utf8.RuneCountInString(s) {
+		if len(v.S) != utf8.RuneCountInString(v.S) {
 			st.multiByteStr++
 		}
 	case protoreflect.BytesKind:
-		if len(c12Bytes(v)) >= 128 {
+		n := len(v.X)
+		if v.R > 1 {
+			n *= v.R
+		}
+		st.long(n, ctx)
+		if n >= 128 {
 			st.longStr++
 		}
 	case protoreflect.EnumKind:
@@ -452,13 +484,13 @@ func c12Walk(md protoreflect.MessageDescriptor, tree *C12Msg, depth int, st *c12
 				if c12IsZero(fd.MapKey(), kv.K) {
 					st.emptyKey++
 				}
-				c12ScalarStats(fd.MapKey(), kv.K, st)
+				c12ScalarStats(fd.MapKey(), kv.K, st, "mapkey")
 				if fd.MapValue().Kind() == protoreflect.MessageKind {
 					if kv.V.M != nil {
 						c12Walk(fd.MapValue().Message(), kv.V.M, depth+1, st)
 					}
 				} else {
-					c12ScalarStats(fd.MapValue(), kv.V, st)
+					c12ScalarStats(fd.MapValue(), kv.V, st, "mapvalue")
 				}
 			}
 		case fd.IsList():
@@ -480,7 +512,7 @@ func c12Walk(md protoreflect.MessageDescriptor, tree *C12Msg, depth int, st *c12
 						st.depth = depth + 1
 					}
 				} else {
-					c12ScalarStats(fd, e, st)
+					c12ScalarStats(fd, e, st, "repeated")
 				}
 			}
 		case fd.Kind() == protoreflect.MessageKind:
@@ -515,7 +547,7 @@ func c12Walk(md protoreflect.MessageDescriptor, tree *C12Msg, depth int, st *c12
 			} else {
 				st.scalarSet++
 			}
-			c12ScalarStats(fd, v, st)
+			c12ScalarStats(fd, v, st, "scalar")
 		}
 	}
 }
@@ -547,6 +579,12 @@ func c12Classes(origin string, tree *C12Msg, ty c12Type) ([]string, bool) {
 	add(st.negInt, "negative_int")
 	add(st.scalarZero, "scalar_zero_listed")
 	add(st.emptyKey, "map_empty_key")
+	longKeys := make([]string, 0, len(st.longBy))
+	for k := range st.longBy {
+		longKeys = append(longKeys, k)
+	}
+	sort.Strings(longKeys)
+	cl = append(cl, longKeys...)
 	if len(tree.F) == 0 {
 		cl = append(cl, "empty_message")
 	}
@@ -587,8 +625,8 @@ func c12Hex(b []byte) string {
 	return hex.EncodeToString(b)
 }
 
-// c12Judge runs the oracle on m (a message of type ty); want is the value m must have
-// (m itself for a freshly built message, a separate fresh build for history cases).
+// c12Judge runs the oracle on m (a message of type ty); want is a separate, freshly built
+// message object of the value m must have (never m itself: the oracle may encode want).
 // vtFirst selects which codec touches m first. It returns "" or the verdict.
 func c12Judge(m, want proto.Message, ty c12Type, vtFirst bool) (verdict string, hist map[string]any, hasVT bool) {
 	hist = map[string]any{"type": string(ty.md.FullName())}
@@ -612,6 +650,72 @@ func c12Judge(m, want proto.Message, ty c12Type, vtFirst bool) (verdict string, 
 	}
 	vt, hasVT := m.(c12VT)
 
+	// decode decodes a private copy of src into a new message, compares it with want, then
+	// overwrites every byte of the copy (XOR 0xFF, then zero) and compares again: a decoded
+	// message must not depend on the buffer it was decoded from (Unmarshal does not retain
+	// the buffer; ttrpc and the WebAssembly glue reuse / free it right after decoding).
+	// The byte-identical re-encoding comparison is done for the first decode by each decoder
+	// (aliasing is a property of the decoder, not of where the bytes came from); every decode
+	// gets the overwrite + proto.Equal comparison.
+	var wantDet []byte
+	reencoded := map[bool]bool{}
+	decode := func(what, from string, src []byte, useVT bool) string {
+		step = what
+		in := append([]byte(nil), src...)
+		got := fresh()
+		var err error
+		if useVT {
+			err = got.(c12VT).UnmarshalVT(in)
+		} else {
+			err = proto.Unmarshal(in, got)
+		}
+		if err != nil {
+			return fmt.Sprintf("%s: %s of %s output failed: %v", name, strings.SplitN(what, "(", 2)[0], from, err)
+		}
+		if len(in) == 0 {
+			return eq(what, got)
+		}
+		// One comparison, made after every byte of the input has been changed. If it fails, a
+		// second decode whose input is left alone tells a wrong decoding from an aliased one.
+		step = what + ", input buffer overwritten"
+		c12Invert(in)
+		if !proto.Equal(got, want) {
+			got2 := fresh()
+			if useVT {
+				err = got2.(c12VT).UnmarshalVT(append([]byte(nil), src...))
+			} else {
+				err = proto.Unmarshal(append([]byte(nil), src...), got2)
+			}
+			if err != nil {
+				return fmt.Sprintf("%s: %s: decoding the same bytes a second time failed: %v", name, what, err)
+			}
+			if v := eq(what, got2); v != "" {
+				return v
+			}
+			hist["decoded_after_overwrite"] = c12Text(got)
+			return fmt.Sprintf("%s: %s changed when the input buffer was overwritten after decoding (the decoded message aliases the buffer): now {%s} want {%s}", name, what, c12Text(got), c12Text(want))
+		}
+		clear(in)
+		if reencoded[useVT] {
+			return ""
+		}
+		reencoded[useVT] = true
+		if wantDet == nil {
+			if wantDet, err = (proto.MarshalOptions{Deterministic: true}).Marshal(want); err != nil {
+				return fmt.Sprintf("%s: proto.Marshal of the reference message failed: %v", name, err)
+			}
+		}
+		re, err := proto.MarshalOptions{Deterministic: true}.Marshal(got)
+		if err != nil {
+			return fmt.Sprintf("%s: re-encoding %s failed: %v", name, what, err)
+		}
+		if !bytes.Equal(re, wantDet) {
+			hist["decoded_after_overwrite"] = c12Text(got)
+			return fmt.Sprintf("%s: %s re-encodes differently after the input buffer was zeroed (the decoded message aliases the buffer): now {%s} want {%s}", name, what, c12Text(got), c12Text(want))
+		}
+		return ""
+	}
+
 	var b1, b2 []byte
 	protoBlock := func() string {
 		step = "proto.Marshal"
@@ -621,23 +725,13 @@ func c12Judge(m, want proto.Message, ty c12Type, vtFirst bool) (verdict string, 
 			return fmt.Sprintf("%s: proto.Marshal failed: %v", name, err)
 		}
 		hist["b1_proto"] = c12Hex(b1)
-		step = "proto.Unmarshal(proto.Marshal)"
-		m11 := fresh()
-		if err := proto.Unmarshal(b1, m11); err != nil {
-			return fmt.Sprintf("%s: proto.Unmarshal of proto.Marshal output failed: %v", name, err)
-		}
-		if v := eq("proto.Unmarshal(proto.Marshal(m))", m11); v != "" {
+		if v := decode("proto.Unmarshal(proto.Marshal(m))", "proto.Marshal", b1, false); v != "" {
 			return v
 		}
 		if !hasVT {
 			return ""
 		}
-		step = "UnmarshalVT(proto.Marshal)"
-		m12 := fresh()
-		if err := m12.(c12VT).UnmarshalVT(b1); err != nil {
-			return fmt.Sprintf("%s: UnmarshalVT of proto.Marshal output failed: %v", name, err)
-		}
-		return eq("UnmarshalVT(proto.Marshal(m))", m12)
+		return decode("UnmarshalVT(proto.Marshal(m))", "proto.Marshal", b1, true)
 	}
 	vtBlock := func() string {
 		if !hasVT {
@@ -663,20 +757,10 @@ func c12Judge(m, want proto.Message, ty c12Type, vtFirst bool) (verdict string, 
 		if vtFirst && n0 != n {
 			return fmt.Sprintf("%s: SizeVT() = %d before and %d after MarshalVT of the same unchanged message", name, n0, n)
 		}
-		step = "proto.Unmarshal(MarshalVT)"
-		m21 := fresh()
-		if err := proto.Unmarshal(b2, m21); err != nil {
-			return fmt.Sprintf("%s: proto.Unmarshal of MarshalVT output failed: %v", name, err)
-		}
-		if v := eq("proto.Unmarshal(MarshalVT(m))", m21); v != "" {
+		if v := decode("proto.Unmarshal(MarshalVT(m))", "MarshalVT", b2, false); v != "" {
 			return v
 		}
-		step = "UnmarshalVT(MarshalVT)"
-		m22 := fresh()
-		if err := m22.(c12VT).UnmarshalVT(b2); err != nil {
-			return fmt.Sprintf("%s: UnmarshalVT of MarshalVT output failed: %v", name, err)
-		}
-		if v := eq("UnmarshalVT(MarshalVT(m))", m22); v != "" {
+		if v := decode("UnmarshalVT(MarshalVT(m))", "MarshalVT", b2, true); v != "" {
 			return v
 		}
 		step = "MarshalToSizedBufferVT"
@@ -689,11 +773,7 @@ func c12Judge(m, want proto.Message, ty c12Type, vtFirst bool) (verdict string, 
 			return fmt.Sprintf("%s: MarshalToSizedBufferVT wrote %d bytes into a buffer of SizeVT()=%d", name, k, n)
 		}
 		hist["b3_sized"] = c12Hex(buf)
-		m3 := fresh()
-		if err := proto.Unmarshal(buf, m3); err != nil {
-			return fmt.Sprintf("%s: proto.Unmarshal of MarshalToSizedBufferVT output failed: %v", name, err)
-		}
-		if v := eq("proto.Unmarshal(MarshalToSizedBufferVT(m))", m3); v != "" {
+		if v := decode("proto.Unmarshal(MarshalToSizedBufferVT(m))", "MarshalToSizedBufferVT", buf, false); v != "" {
 			return v
 		}
 		if to, ok := m.(c12VTTo); ok {
@@ -706,11 +786,7 @@ func c12Judge(m, want proto.Message, ty c12Type, vtFirst bool) (verdict string, 
 			if k != n {
 				return fmt.Sprintf("%s: MarshalToVT wrote %d bytes, SizeVT()=%d", name, k, n)
 			}
-			m4 := fresh()
-			if err := m4.(c12VT).UnmarshalVT(buf2); err != nil {
-				return fmt.Sprintf("%s: UnmarshalVT of MarshalToVT output failed: %v", name, err)
-			}
-			if v := eq("UnmarshalVT(MarshalToVT(m))", m4); v != "" {
+			if v := decode("UnmarshalVT(MarshalToVT(m))", "MarshalToVT", buf2, true); v != "" {
 				return v
 			}
 		}
@@ -728,6 +804,16 @@ func c12Judge(m, want proto.Message, ty c12Type, vtFirst bool) (verdict string, 
 	return vtBlock(), hist, hasVT
 }
 
+var c12Ones []byte
+
+// c12Invert XORs every byte of b with 0xFF.
+func c12Invert(b []byte) {
+	if len(c12Ones) < len(b) {
+		c12Ones = bytes.Repeat([]byte{0xFF}, len(b)+len(b)/2+64)
+	}
+	subtle.XORBytes(b, b, c12Ones[:len(b)])
+}
+
 func runC12(c C12Case) ev.Outcome {
 	m, ty, bi, err := c12Build(c)
 	if err != nil {
@@ -739,7 +825,7 @@ func runC12(c C12Case) ev.Outcome {
 		return ev.Outcome{Excluded: "malformed case: unknown order " + c.Order}
 	}
 	final := &c.Msg
-	want := m
+	var want proto.Message
 	var hclasses []string
 	if len(c.Hist) > 0 {
 		var o *ev.Outcome
@@ -747,6 +833,8 @@ func runC12(c C12Case) ev.Outcome {
 		if o != nil {
 			return *o
 		}
+	} else if want, err = c12Fresh(ty, final, &bi); err != nil {
+		return ev.Outcome{Excluded: "malformed case: " + err.Error()}
 	}
 	classes, nt := c12Classes(c.Origin, final, ty)
 	if len(c.Hist) > 0 {
